@@ -339,8 +339,13 @@ func (x *Exec) applyContract(st *State, fn *ssa.Function, spec *contract.FuncSpe
 	}
 	allocBefore := st.Alloc
 	if x.P.allocates(fn, spec) {
-		st.Alloc = term.Fresh("alloc", term.Int)
-		x.assumeOnce(term.Le(allocBefore, st.Alloc))
+		if _, concrete := st.Alloc.Int64(); concrete && x.Mode == ModeUnwind {
+			// keep references concrete while unwinding: reserve a block for the callee's objects
+			st.Alloc = term.Add(st.Alloc, term.I(1<<16))
+		} else {
+			st.Alloc = term.Fresh("alloc", term.Int)
+			x.assumeOnce(term.Le(allocBefore, st.Alloc))
+		}
 	}
 	for _, class := range written {
 		x.havocClass(st, old, class, mods, allocBefore)
